@@ -609,6 +609,15 @@ def check_extras(case, ctx):
                 for k in range(1 << n):
                     if k not in dc[j] and rng.random() < 0.3:
                         definition[(tuple(inp(k, i, n) for i in range(n)), j)] = bit(rows[j], k)
+        if case.get('extra_any'):
+            # a definition written out for more cells than the model leaves open (e.g. a whole reference function used
+            # as the definition): where the model is defined the model rules - "agrees with the model wherever it was
+            # defined and with the supplied definition elsewhere"
+            ctx.count('define:overcomplete_definition')
+            for j in range(m):
+                for k in range(1 << n):
+                    if k not in dc[j] and rng.random() < 0.4:
+                        definition[(tuple(inp(k, i, n) for i in range(n)), j)] = rng.random() < 0.5
         want = []
         for j in range(m):
             r = 0
@@ -777,7 +786,7 @@ def gen_extra(rng):
         dc = [sorted(k for k in range(1 << n) if rng.random() < dens) for _ in range(m)]
         fill = [rng.getrandbits(1 << n) for _ in range(m)]
         return {'kind': 'extras', 'sub': 'define', 'n': n, 'm': m, 'rows': rows, 'dc': dc, 'fill': fill,
-                'extra_consistent': rng.random() < 0.3, 'rseed': rng.getrandbits(32)}
+                'extra_consistent': rng.random() < 0.3, 'extra_any': rng.random() < 0.25, 'rseed': rng.getrandbits(32)}
     if rng.random() < 0.35:
         # machine-word sized wrappers (sampled operands): results beyond 2^53 included
         n = rng.choice([5, 8, 16, 24, 27, 31, 32, 33, 53, 54, 64])
